@@ -16,4 +16,6 @@ INVARIANT BitmapBuilderIsSetEncoding
 INVARIANT EmitNsec
 INVARIANT EmitNsec3
 INVARIANT EmitBitmap
+INVARIANT LongApexLaws
+INVARIANT EmitLongApex
 CHECK_DEADLOCK FALSE
